@@ -59,7 +59,11 @@ where
 {
     let mut rng = Rng::new(cfg.wseed);
     let nbg = rng.range(1, 3) as usize; // background threads
-    let early_exit = cfg.prop == 9 && rng.chance(1, 2);
+    // C08 "inherit": a short-lived thread fills the fast slots of its node with guards, hands them
+    // over and exits; the victim then starts, adopts a node (possibly that one, all slots taken,
+    // its own scan position still at the initial value) and measures its loads.
+    let inherit = cfg.prop == 8 && rng.chance(1, 3);
+    let early_exit = (cfg.prop == 9 && rng.chance(1, 2)) || inherit;
     let nt = 1 + nbg + early_exit as usize;
     let nc = rng.range(1, 2) as usize;
     let viol_before = crate::viol::count();
@@ -109,14 +113,15 @@ where
         let inn = unsafe { sched::inner() };
         inn.prio[0] = 10_000;
     }
-    if freeze_at != 0 {
-        sched::set_freeze(freeze_at, 0, cfg.prop == 9, b_w() + 70 * nt as u32);
+    let freeze_budget = b_w() + 70 * nt as u32;
+    if freeze_at != 0 && !inherit {
+        sched::set_freeze(freeze_at, 0, cfg.prop == 9, freeze_budget);
     }
     let fresh_prober = cfg.prop == 9 && srng.chance(1, 3);
     let hold = *srng.pick(&[0usize, 0, 7, 8, 9, 20]);
     let desc = json!({"workload": "prog", "property": format!("C{:02}", cfg.prop), "value": V::NAME, "strategy": S::NAME, "exec_no": cfg.exec_no,
         "wseed": cfg.wseed, "sseed": cfg.sseed, "threads": nt, "containers": nc, "situation": sname, "sched": format!("{:?}", strat),
-        "freeze_at_step": freeze_at, "guards_held_by_victim": hold, "fresh_prober": fresh_prober, "early_exiter": early_exit});
+        "freeze_at_step": freeze_at, "guards_held_by_victim": hold, "fresh_prober": fresh_prober, "early_exiter": early_exit, "victim_inherits_node": inherit});
     runner::set_current(desc.clone());
 
     let mk_worker = {
@@ -140,6 +145,9 @@ where
         }
     };
     let exiter = if early_exit { Some(nt - 1) } else { None };
+    // "inherit": the background writers hold back until the victim has adopted its node (a write
+    // would pay the debts the short-lived thread left in its slots)
+    let victim_ready = Arc::new(AtomicBool::new(!inherit));
     let mut handles = Vec::new();
     // ---- victim / prober: thread 0
     {
@@ -147,12 +155,38 @@ where
         let sh2 = sh.clone();
         let seed = rng.next();
         let prop = cfg.prop;
+        let victim_ready = victim_ready.clone();
         handles.push(spawn_worker(0, seed, move || {
             let mut w = mk(0, seed);
             w.sh = sh2.clone();
             if prop == 8 {
                 // The property speaks about a thread that has already used the crate.
-                w.do_op(W::LoadDrop);
+                if inherit {
+                    wait_gone(exiter);
+                    runner::count("c08.inherit_execs", 1);
+                    if freeze_at != 0 {
+                        // the freeze must not catch the victim waiting for the short-lived thread
+                        let now = unsafe { sched::inner() }.nsteps;
+                        sched::set_freeze(now + 1 + freeze_at % 150, 0, false, freeze_budget);
+                    }
+                }
+                if inherit && w.rng.chance(2, 3) {
+                    // used the crate, but no fast slot yet: a write to a container of its own
+                    let scratch = ArcSwapAny::<V, S>::new(V::fresh(id_block() + 1));
+                    scratch.store(V::fresh(id_block() + 1));
+                    drop(scratch);
+                } else {
+                    w.do_op(W::LoadDrop);
+                }
+                victim_ready.store(true, SeqCst);
+                if inherit {
+                    if let Some(me) = arc_swap::verif::thread_node() {
+                        let full = arc_swap::verif::nodes().iter().any(|n| n.addr == me && n.fast.iter().all(|&x| x != arc_swap::verif::NO_DEBT));
+                        runner::count(if full { "c08.inherited_node_all_slots_taken" } else { "c08.inherited_node_other" }, 1);
+                    } else {
+                        runner::count("c08.inherit_no_node", 1);
+                    }
+                }
                 for _ in 0..hold {
                     w.do_op(W::Load);
                 }
@@ -249,8 +283,15 @@ where
         };
         let fill_guards = cfg.prop == 9 && b == 0 && rng.chance(1, 2);
         let prop = cfg.prop;
+        let victim_ready = victim_ready.clone();
         handles.push(spawn_worker(t, seed, move || {
             let mut w = mk(t, seed);
+            if !victim_ready.load(SeqCst) {
+                while !victim_ready.load(SeqCst) {
+                    sched::yield_blocked();
+                }
+                sched::unblocked();
+            }
             if fill_guards {
                 // a reader holding more guards than fast slots: its loads go through the fallback
                 for _ in 0..9 {
@@ -284,9 +325,20 @@ where
         let seed = rng.next();
         handles.push(spawn_worker(t, seed, move || {
             let mut w = mk(t, seed);
-            for _ in 0..3 {
-                let op = ALLW[w.rng.weighted(&BG_MIXED)];
-                w.do_op(op);
+            if inherit {
+                let k = *w.rng.pick(&[8usize, 8, 8, 9, 6]);
+                for _ in 0..k {
+                    w.do_op(W::Load);
+                }
+                // hand the guards over (they outlive this thread; the end of the execution drops them)
+                while let Some((_, h)) = w.guards.pop() {
+                    sh2.mailbox.lock().unwrap().push(h);
+                }
+            } else {
+                for _ in 0..3 {
+                    let op = ALLW[w.rng.weighted(&BG_MIXED)];
+                    w.do_op(op);
+                }
             }
             while let Some((_, h)) = w.guards.pop() {
                 let g = crate::wl_core::release(h);
